@@ -28,10 +28,38 @@ TRUSTED_BASE = [
 # Kani harnesses (kani/in_crate.rs, compiled inside /repo under cfg(kani)); bounded, never counted as proved
 KANI_HARNESSES = {
     'C02': [('k2_output_array_box_drop_once', 'N = 2, owning payload'), ('k2_future_array_drop_exactly_one', 'N = 2'),
-            ('k2_array_assume_init_identity', 'N = 2, all u16 values'),
+            ('k2_array_assume_init_identity', 'N = 2, all u16 values'), ('k1_pollarray_index_helpers', 'N = 3, all 27 states, unwind 5'),
             ('k2_output_vec_box_drop_once', 'N = 2, owning payload, unwind 5'), ('k2_future_vec_drop_exactly_one', 'N = 2, unwind 5')],
     'C04': [('k2_output_array_write_take_positional', 'N = 3, all u8 values, all write orders'),
             ('k2_output_vec_write_take_positional', 'N = 2, all u8 values, both write orders, unwind 5')],
+}
+
+
+_ALLC = ['array', 'vec', 'tuple']
+def _fams(*names):
+    out = []
+    for n in names:
+        if n in ('future_group', 'stream_group'):
+            out.append((n, 'group'))
+        elif n in ('wait_until', 'co_stream'):
+            out.append((n, 'na'))
+        else:
+            out += [(n, c) for c in _ALLC]
+    return out
+
+
+# families whose real code the witness enumeration exercises for a property (thorough tier; bounded)
+WITNESS_FAMILIES = {
+    'C01': _fams('join', 'try_join', 'race', 'race_ok', 'merge', 'zip', 'chain', 'future_group', 'stream_group'),
+    'C02': _fams('join', 'try_join', 'race_ok', 'zip', 'future_group', 'stream_group'),
+    'C03': _fams('join', 'try_join', 'race', 'race_ok', 'merge', 'zip', 'chain', 'future_group', 'stream_group'),
+    'C04': _fams('join'), 'C05': _fams('try_join'), 'C06': _fams('race'), 'C07': _fams('race_ok'),
+    'C08': _fams('merge'), 'C09': _fams('zip'), 'C10': _fams('chain'),
+    'C11': _fams('future_group'), 'C12': _fams('stream_group'),
+    'C13': _fams('co_stream'), 'C14': _fams('co_stream'), 'C15': _fams('co_stream'),
+    'C16': _fams('join', 'try_join', 'merge', 'zip', 'future_group', 'stream_group'),
+    'C17': _fams('merge'), 'C19': _fams('wait_until'),
+    'C20': _fams('join', 'try_join', 'race', 'race_ok', 'merge', 'zip', 'future_group', 'stream_group'),
 }
 
 
@@ -282,6 +310,41 @@ def cmd_check(args):
                 real.append(dict(unit='kani', cfg='alloc', fn=b['harness'], tags=['KANI_' + b['harness']], message='kani harness failed', line=0))
             elif b['status'] != 'SUCCESSFUL':
                 undecided.append(dict(kind='tool', message='kani harness %s: %s' % (b['harness'], b['status'])))
+
+    # ---- bounded stand-in (thorough tier only): scenario enumeration on the real crate for the leaves that stay assumed
+    # (FutureArray/FutureVec pin projections, slab, BTreeSet, futures-buffered, utils::pin) ----
+    if tier == 'thorough' and prop in WITNESS_FAMILIES:
+        from . import witness as W
+        for cfg_w in (('std',) if prop in STD_ONLY_PROPS else ('std', 'nostd')):
+            need_co = any(f == 'co_stream' for f, _ in WITNESS_FAMILIES[prop])
+            exe, err = W.build(cfg_w, need_co)
+            if exe is None:
+                bounded.append(dict(harness='witness(%s)' % cfg_w, status='not run (%s)' % err[-200:], bound='', wall_s=0, output=''))
+                continue
+            for (fam, cont) in WITNESS_FAMILIES[prop]:
+                t1 = time.time()
+                try:
+                    pw = subprocess.run([exe, '--family', fam, '--container', cont, '--prop', prop, '--budget', '5000', '--seed', str(seed or 1)],
+                                        capture_output=True, text=True, timeout=900)
+                    line = (pw.stdout.strip().split('\n') or [''])[-1]
+                    j = json.loads(line)
+                except Exception as e:
+                    bounded.append(dict(harness='witness %s/%s (%s)' % (fam, cont, cfg_w), status='not run (%r)' % (e,), bound='', wall_s=0, output=''))
+                    continue
+                hb = dict(harness='witness %s/%s (%s)' % (fam, cont, cfg_w), bound='<= 3 children, 5000 scenarios, seed %s' % (seed or 1),
+                          wall_s=round(time.time() - t1, 1), output=line[:2000])
+                if j.get('found'):
+                    hb['status'] = 'FAILED'
+                    rp = os.path.join(replay_dir, '%s-witness-%s-%s-%s.json' % (prop, fam, cont, cfg_w))
+                    with open(rp, 'w') as fh:
+                        json.dump(dict(property=prop, obligation=['BOUNDED_WITNESS_%s_%s' % (fam, cont)], verifier='bounded scenario enumeration on the real crate (/verif/witness)',
+                                       witness=dict(found=True, scenario=j.get('scenario'), observed=j.get('observed'), config=j.get('config'),
+                                                    replay_cmd="%s --replay '%s' --prop %s --trace" % (exe, json.dumps(j.get('scenario')), prop))), fh, indent=1)
+                    out_lines.append('VIOLATION property=%s replay=%s' % (prop, rp))
+                    real.append(dict(unit='witness', cfg=cfg_w, fn=fam, tags=['BOUNDED_WITNESS'], message='witness found a violating scenario', line=0))
+                else:
+                    hb['status'] = 'SUCCESSFUL' if not j.get('skipped') else 'skipped (%s)' % j.get('skipped')
+                bounded.append(hb)
 
     n_obl = len(obligations)
     n_ok = sum(1 for o in obligations.values() if o['ok'])
